@@ -5,7 +5,8 @@ use crate::explore::Subject;
 use crate::sut::*;
 use sentinel_core::base::ConcurrencyStat;
 use sentinel_core::{isolation, stat};
-use sentinel_tower::{BoxError, SentinelService, ServiceRole};
+use sentinel_tower::{BoxError, SentinelLayer, SentinelService, ServiceRole};
+use tower::Layer;
 use serde::{Deserialize, Serialize};
 use std::future::Future;
 use std::pin::Pin;
@@ -32,6 +33,17 @@ pub struct Cfg {
     pub threshold: u32,
     pub fallback: Fallback,
     pub server: bool,
+    /// how the service is built: directly, through a SentinelLayer, or through a CLONE of the
+    /// layer (what tower::ServiceBuilder and shared stacks do)
+    #[serde(default)]
+    pub via: Via,
+}
+#[derive(Serialize, Deserialize, Clone, Copy, Debug, PartialEq, Default)]
+pub enum Via {
+    #[default]
+    Direct,
+    Layer,
+    ClonedLayer,
 }
 
 type Req = (u32, Outcome);
@@ -142,12 +154,32 @@ impl Subject for C20 {
         // entries leaked by a previous sequence live on the old node, which reset_world dropped
         isolation::load_rules(vec![Arc::new(isolation::Rule { id: "iso".into(), resource: RES.into(), threshold: self.cfg.threshold, ..Default::default() })]);
         self.calls = Arc::new(AtomicUsize::new(0));
-        let mut s = SentinelService::new(Inner { calls: self.calls.clone() }, if self.cfg.server { ServiceRole::Server } else { ServiceRole::Client }).with_extractor(extract);
-        match self.cfg.fallback {
-            Fallback::None => {}
-            Fallback::OkResponse => s = s.with_fallback(fb_ok),
-            Fallback::Err => s = s.with_fallback(fb_err),
-        }
+        let role = if self.cfg.server { ServiceRole::Server } else { ServiceRole::Client };
+        let inner = Inner { calls: self.calls.clone() };
+        let s = match self.cfg.via {
+            Via::Direct => {
+                let mut s = SentinelService::new(inner, role).with_extractor(extract);
+                match self.cfg.fallback {
+                    Fallback::None => {}
+                    Fallback::OkResponse => s = s.with_fallback(fb_ok),
+                    Fallback::Err => s = s.with_fallback(fb_err),
+                }
+                s
+            }
+            via => {
+                let mut l: SentinelLayer<Inner, Req, ()> = SentinelLayer::new(role).with_extractor(extract);
+                match self.cfg.fallback {
+                    Fallback::None => {}
+                    Fallback::OkResponse => l = l.with_fallback(fb_ok),
+                    Fallback::Err => l = l.with_fallback(fb_err),
+                }
+                if via == Via::ClonedLayer {
+                    l.clone().layer(inner)
+                } else {
+                    l.layer(inner)
+                }
+            }
+        };
         self.svc = Some(s);
         self.inflight = 0;
         self.next_id = 0;
@@ -277,7 +309,9 @@ pub fn run(o: &Opts, stats: &mut Stats) -> Option<usize> {
     for threshold in [1u32, 2] {
         for fallback in [Fallback::None, Fallback::OkResponse, Fallback::Err] {
             for server in [true, false] {
-                cfgs.push(Cfg { threshold, fallback, server });
+                for via in [Via::Direct, Via::Layer, Via::ClonedLayer] {
+                    cfgs.push(Cfg { threshold, fallback, server, via });
+                }
             }
         }
     }
